@@ -18,9 +18,23 @@ def probe_exe():
     return C.build_harness('c02probe', 'asan', extra=('-O0',))
 
 
+def reserved_words_of_tree():
+    """The reserved spellings of the tree under test (the `known_words[]` initialiser of src/impl.cxx), hex-encoded and comma-separated,
+    handed to the probe in addition to the ones it knows; '' when the initialiser is not found."""
+    try:
+        src = open(os.path.join(C.REPO, 'src', 'impl.cxx'), encoding='utf-8', errors='replace').read()
+    except OSError:
+        return ''
+    m = re.search(r'known_words\s*\[\s*\]\s*(?:=\s*)?\{(.*?)\}\s*;', src, re.S)
+    if not m:
+        return ''
+    ws = re.findall(r'u8"((?:[^"\\]|\\.)*)"', re.sub(r'//.*', '', m.group(1)))
+    return ','.join(w.encode('utf-8').hex() for w in ws if w and '\\' not in w and len(w) <= 24)
+
+
 def run_probe(ops, rounds=1, seed=None):
     exe = probe_exe()
-    rc, out, err = C.run_exe(exe, [str(C.seed() if seed is None else seed), str(rounds)], '\n'.join(ops) + '\n')
+    rc, out, err = C.run_exe(exe, [str(C.seed() if seed is None else seed), str(rounds), reserved_words_of_tree()], '\n'.join(ops) + '\n')
     return rc, out, err
 
 
@@ -419,8 +433,12 @@ def lean_table(rows, cats, const_types=None, builtins=None):
     items = []
     for r in rows:
         acc = ', '.join('(%s, %s)' % (lean_str(p), lean_src(s)) for p, s in r['acc'])
+        # the key of an operand form is the key of its entry followed by the name of the form (written as such: the kernel then
+        # compares the entry's key once, not once more per form)
+        bk = base_key(r['key'])
+        key = lean_str(r['key']) if bk == r['key'] else '%s ++ %s' % (lean_str(bk), lean_str(r['key'][len(bk):]))
         items.append('  { key := %s, kind := .%s, cat := .%s, storage := .%s,\n    sorts := [%s], typ := %s,\n    acc := [%s] }' % (
-            lean_str(r['key']), kind_ctor(r['kind']), cat_of(r, cats), r['storage'],
+            key, kind_ctor(r['kind']), cat_of(r, cats), r['storage'],
             ', '.join(lean_str(s) for s in r['sorts']),
             'none' if r['typ'] is None else 'some (%s)' % lean_src(r['typ']), acc))
     out.append(',\n'.join(items))
@@ -457,7 +475,7 @@ UNLINKABLE = {'Scope::add_member(T)': 'private helper, reached through every Sco
               'decl_factory::declare(Overload,Type)': 'internal, reached through every Scope::make_* entry',
               'decl_factory::redeclare(overload_entry)': 'internal, reached through Scope::make_var(Name,Type)#redeclaration',
               'Warehouse::push_back(T)': 'exercised while building the operand pools; observable only through get_product/get_sum',
-              'General_substitution::subst(Parameter,Expr)': 'its only observer is Substitution::operator[] (property C16)','expr_factory::make_annotation(String,Literal)': 'declared but never defined in the repository',
+              'expr_factory::make_annotation(String,Literal)': 'declared but never defined in the repository',
               'Lexicon::make_token(String,Source_location,TokenValue,TokenCategory)': 'declared but never defined in the repository'}
 
 
@@ -595,6 +613,102 @@ def _grew(a, b):
     return len(ea) < len(eb) and eb[:len(ea)] == ea
 
 
+# ------------------------------------------------------------------------------------------------ builder calls after creation
+
+FORM_SUFFIXES = ('#nested', '#resolved-operand', '#reserved-spelling', '#list-filled-later')
+
+
+def base_key(key):
+    """the entry a row belongs to (the key of an operand form names its entry)"""
+    for sfx in FORM_SUFFIXES:
+        if key.endswith(sfx):
+            return key[:-len(sfx)]
+    return key
+
+
+def function_name(key):
+    """`expr_factory::make_cast(Type,Expr)#qualified-type` -> `make_cast` (as the probe groups the entries of one function)"""
+    f = key.split('(')[0]
+    return f.rsplit('::', 1)[-1]
+
+
+def parse_builder_histories(out):
+    """{(key, inst): [dict(step, action, type, want, val, obs={field: value})]} from the probe's M / N lines: the node made by the repeated
+    call of every factory entry receives, one at a time and in a seeded order, every client action its implementation class allows --
+    every setter twice, with different values -- and is observed in full after each."""
+    hs = {}
+    for ln in out.splitlines():
+        if ln.startswith('M '):
+            m = re.match(r'M (\S+) (\d+) (\d+) (\S+) type=(\S+) want=(\S+) val=(\S+)$', ln)
+            if m:
+                hs.setdefault((m.group(1), int(m.group(2))), []).append(
+                    {'step': int(m.group(3)), 'action': m.group(4), 'type': m.group(5), 'want': m.group(6), 'val': m.group(7), 'obs': None})
+        elif ln.startswith('N '):
+            m = re.match(r'N (\S+) (\d+) (\d+) (.*)$', ln)
+            if m:
+                h = hs.get((m.group(1), int(m.group(2))))
+                if h and h[-1]['step'] == int(m.group(3)):
+                    _, kind, fields = parse_obs(m.group(4))
+                    h[-1]['obs'] = dict(fields)
+                    h[-1]['kind'] = kind
+    return hs
+
+
+def setter_of(action):
+    """`init=Expr#2` -> `init`, `specifiers()#2` -> `specifiers()`"""
+    return re.sub(r'#\d+$', '', action).split('=')[0]
+
+
+def builder_oracle(steps):
+    """The statement of C02 for parts supplied through the builder interface AFTER creation, on one history of client actions: a part
+    reads as the value it was given LAST.  What a setter is read back under is learnt from its first call (the accessors whose value
+    became the value assigned); from then on these accessors must read the latest value assigned by that setter after EVERY later
+    action (another setter, the same setter again, a container growing).  Returns None or (step, message)."""
+    learnt = {}         # setter -> accessors it is read back under
+    latest = {}         # accessor -> (value, action)
+    prev = None
+    done = []
+    for st in steps:
+        obs = st['obs']
+        if obs is None:
+            continue
+        if st['step'] > 0 and st['val'] != '-' and prev is not None:
+            k = setter_of(st['action'])
+            if not learnt.get(k):
+                learnt[k] = [f for f, v in obs.items() if v == st['val'] and prev.get(f) != v]
+            for f in learnt[k]:
+                latest[f] = (st['val'], st['action'])
+        if st['step'] > 0:
+            done.append(st['action'])
+        for f, (v, act) in latest.items():
+            if obs.get(f) != v:
+                return st['step'], 'after %s: `%s` reads `%s`; the last builder call that supplied it was `%s` with value `%s`' % (
+                    ' -> '.join(done), f, obs.get(f), act, v)
+        prev = obs
+    return None
+
+
+def builder_coverage(hs):
+    """{setter: [times called, times its first call was observable]} over all histories (evidence)"""
+    cov = {}
+    for steps in hs.values():
+        seen = set()
+        prev = None
+        for st in steps:
+            if st['obs'] is None:
+                continue
+            if st['step'] > 0 and st['val'] != '-':
+                k = setter_of(st['action'])
+                c = cov.setdefault(k, [0, 0])
+                c[0] += 1
+                if k not in seen:
+                    seen.add(k)
+                    if prev is not None and any(v == st['val'] and prev.get(f) != v for f, v in st['obs'].items()):
+                        c[1] += 1
+            prev = st['obs']
+    return cov
+
+
 def expected_rows():
     """The documented table as printed by the model driver: {key: row dict} and the key order; None if the driver is unavailable."""
     try:
@@ -629,17 +743,21 @@ def diff_rows(exp, gen):
     return d
 
 
-def describe_instances(P, row, path, limit=4):
-    """The argument vectors and what was observed under `path`, per instance (the replay of a wiring difference)."""
+def describe_instances(P, row, path, limit=4, doc=None):
+    """The argument vectors and what was observed under `path`, per instance (the replay of a wiring difference); when the documented
+    source `doc` is given, the instances it does not explain come first and are marked."""
     out = []
-    for c in row['calls'][:limit]:
+    for c in row['calls']:
         _, fl = flatten(P, c)
         d = dict(fl)
         raw = d.get(path)
         if raw is None and path == 'type()':
             raw = d.get('type')
-        out.append('instance %d: args=[%s] result=%s observed %s=%s' % (c.inst, ' '.join(c.args), c.result, path, raw))
-    return out
+        off = doc is not None and raw is not None and doc not in ('none', '<not documented>') and doc not in candidates(P, c, raw)
+        out.append((not off, c.inst, 'instance %d: args=[%s] result=%s observed %s=%s%s' % (
+            c.inst, ' '.join(c.args), c.result, path, raw, '   <-- not `%s`' % doc if off else '')))
+    out.sort(key=lambda x: (x[0], x[1]))
+    return [x[2] for x in out[:limit]]
 
 
 def instance_oracle(P, rows, exp):
@@ -684,6 +802,9 @@ def model_ops(P, rows):
                         known_env[a] = line
                         ops.append(line)
             ops.append('call %s %s %s' % (c.key, c.result, ' '.join(const_or(P, a) for a in c.args)))
+            # the name of the result now stands for the record just made: when that node is used as an operand later (`#nested`), what
+            # the implementation reports for it is stated again (parts created with it have names on this side only)
+            known_env.pop(c.result, None)
             _, fl = flatten(P, c)
             expect.append((c, [(p, const_or(P, v)) for p, v in fl if p != 'category']))
     return ops, expect
